@@ -35,6 +35,73 @@ Proof.
   inversion H. eauto.
 Qed.
 
+Lemma count_while_all f (l : bytes) : count_while f l = List.length l -> forallb f l = true.
+Proof.
+  induction l as [|x l IH]; cbn [count_while List.length forallb]; [reflexivity|].
+  destruct (f x); [|discriminate]. intro H. cbn [andb]. apply IH. lia.
+Qed.
+
+Lemma forallb_rev' {A} (f : A -> bool) l : forallb f (rev l) = true -> forallb f l = true.
+Proof.
+  rewrite !forallb_forall. intros H x Hx. apply H. apply in_rev. rewrite rev_involutive. exact Hx.
+Qed.
+
+Lemma scan_nonstop o w : forall l n,
+  forallb (fun x => negb (stops_at o w x)) (firstn (N.to_nat (scan o w l n - n)) l) = true.
+Proof.
+  induction l as [|c r IH]; intro n; cbn [scan].
+  - rewrite firstn_nil. reflexivity.
+  - destruct (stops_at o w c) eqn:E.
+    + replace (N.to_nat (n - n)) with 0 by lia. reflexivity.
+    + pose proof (scan_ge o w r (N.succ n)) as G.
+      replace (N.to_nat (scan o w r (N.succ n) - n)) with (S (N.to_nat (scan o w r (N.succ n) - N.succ n))) by lia.
+      cbn [firstn forallb]. rewrite E. cbn [negb andb]. apply IH.
+Qed.
+
+Lemma stops_at_line_end_bool : forall a b c d e f g w,
+  let o := mkIO a b c d e f false false false false false false g false false false false in
+  stops_at (io_fn o) w x0a = true /\ stops_at (io_fn o) w x0d = true.
+Proof. intros a b c d e f g w. destruct a, b, c, d, e, f, g, w; cbv zeta; split; vm_compute; reflexivity. Qed.
+
+Lemma stops_at_line_end o w x : is_line_end_char x = true -> stops_at (io_fn o) w x = true.
+Proof.
+  intro H. rewrite io_fn_tables. cbv zeta.
+  destruct (stops_at_line_end_bool (io_autolink o) (io_strikethrough o) (io_subscript o) (io_superscript o)
+              (io_underline o) (io_spoiler o) (io_smart o) w) as [A B].
+  cbv zeta in A, B. destruct x; try discriminate H; assumption.
+Qed.
+
+Lemma drop_while_app_all f (a b : bytes) : forallb f a = true -> drop_while f (a ++ b) = drop_while f b.
+Proof.
+  induction a as [|x a IH]; cbn [app forallb drop_while]; [reflexivity|].
+  intro H. apply andb_true_iff in H. destruct H as [H1 H2]. rewrite H1. apply IH, H2.
+Qed.
+
+(* a first stretch that is all white space and ends at a line end: the first line is blank *)
+Lemma blank_first_line o w inp e c' :
+  e = N.to_nat (find_special_char (io_fn o) w inp 0) -> e <= List.length inp ->
+  count_while sl_isspace (rev (firstn e inp)) = List.length (firstn e inp) ->
+  nth_error inp e = Some c' -> is_line_end_char c' = true ->
+  first_line_not_blank inp = false.
+Proof.
+  intros He Hle Hc Hn Hl.
+  assert (forallb sl_isspace (firstn e inp) = true) as A.
+  { apply forallb_rev'. apply count_while_all. rewrite rev_length. exact Hc. }
+  assert (forallb (fun x => negb (stops_at (io_fn o) w x)) (firstn e inp) = true) as B.
+  { unfold find_special_char in He. cbn [Nat.leb skipn] in He. subst e.
+    pose proof (scan_nonstop (io_fn o) w inp 0%N) as K. rewrite N.sub_0_r in K. exact K. }
+  assert (forallb (fun c => beqb c x20 || beqb c x09) (firstn e inp) = true) as D.
+  { rewrite forallb_forall in *. intros x Hx. specialize (A x Hx). specialize (B x Hx).
+    apply negb_true_iff in B.
+    destruct (is_line_end_char x) eqn:El; [rewrite (stops_at_line_end o w x El) in B; discriminate B|].
+    destruct x; try discriminate A; try discriminate El; reflexivity. }
+  unfold first_line_not_blank. rewrite <- (firstn_skipn e inp) at 1.
+  rewrite (drop_while_app_all _ _ _ D).
+  rewrite (skipn_nth2 inp e c' Hn). cbn [drop_while].
+  assert (beqb c' x20 || beqb c' x09 = false) as -> by (destruct c'; try discriminate Hl; reflexivity).
+  rewrite Hl. reflexivity.
+Qed.
+
 Section Walk.
 Variable memo : bool.
 Variable o : iopts.
@@ -45,6 +112,7 @@ Variable start_line : N.
 Variable refmap : list (bytes * (bytes * bytes)).
 Variable maxref : N.
 Hypothesis Hrt : rtrim_slice inp = inp.
+Hypothesis Hflb : first_line_not_blank inp = true.
 
 Notation CInv := (CInv inp).
 Notation LInv := (LInv inp lo start_line).
@@ -105,39 +173,39 @@ Proof.
   assert (pos s1 = pos s) as Hp1 by reflexivity. rewrite <- Hp1 in Ec, Hlt. clear Hp1.
   pose proof C1 as (Ca & Cb & _).
   clearbody s1.
-  destruct (beqb c x00); [discriminate|].
+  destruct (beqb c x00) eqn:E00; [discriminate|].
   destruct (beqb c x0d || beqb c x0a) eqn:Enl.
   { apply append_panic in H. eapply handle_newline_sites; eassumption. }
   destruct (beqb c x60) eqn:Ebt.
   { apply append_panic in H. eapply handle_backticks_sites; eassumption. }
-  destruct (beqb c x5c).
+  destruct (beqb c x5c) eqn:Ebs.
   { apply append_panic in H. eapply handle_backslash_sites; eassumption. }
-  destruct (beqb c x26).
+  destruct (beqb c x26) eqn:Eamp.
   { apply append_panic in H. eapply handle_entity_sites; eassumption. }
-  destruct (beqb c x3c).
+  destruct (beqb c x3c) eqn:Elt.
   { apply append_panic in H. eapply handle_pointy_brace_sites; eassumption. }
   assert (forall b, text1 s1 b = Panic site -> allowed site = true) as Htext.
   { intros b Hb. unfold text1 in Hb. apply append_panic in Hb. exfalso.
     match type of Hb with bind ?r _ = _ => destruct r as [n|?|] eqn:Em; cbn [bind] in Hb; try discriminate Hb end.
     inversion Hb; subst. eapply text_mk_sites; [| |exact Em]; cbn [coloff set_pos]; lia. }
   destruct (beqb c x3a) eqn:Ecolon.
-  { apply beqb_eq in Ecolon. subst c.
+  { clear E00 Enl Ebt Ebs Eamp Elt. apply beqb_eq in Ecolon. subst c.
     match type of H with bind ?r _ = _ => destruct r as [[[s2 n]|]|?|] eqn:Er end; cbn [bind] in H; try discriminate.
     - eapply Htext. exact H.
     - inversion H; subst. destruct (io_autolink o); [|discriminate].
       eapply haw_sites; [|exact Er]. intros r Hr. eapply url_match_result; eassumption. }
-  destruct (beqb c x77 && io_autolink o).
+  destruct (beqb c x77 && io_autolink o) eqn:Ew.
   { match type of H with bind ?r _ = _ => destruct r as [[[s2 n]|]|?|] eqn:Er end; cbn [bind] in H; try discriminate.
     - eapply Htext. exact H.
     - inversion H; subst. eapply haw_sites; [|exact Er]. intros r Hr. eapply www_match_result; eassumption. }
-  match type of H with (if ?b then _ else _) = _ => destruct b end.
+  match type of H with (if ?b then _ else _) = _ => destruct b eqn:Edel end.
   { destruct (handle_delim o u inp s1 c) as [[[s2 n] d]|?|] eqn:Ed; cbn [bind] in H; try discriminate.
     inversion H; subst. eapply handle_delim_sites; eassumption. }
-  destruct (beqb c x2d).
+  destruct (beqb c x2d) eqn:Ehy.
   { apply append_panic in H. eapply handle_hyphen_sites; eassumption. }
-  destruct (beqb c x2e).
+  destruct (beqb c x2e) eqn:Epe.
   { apply append_panic in H. eapply handle_period_sites; eassumption. }
-  destruct (beqb c x5b).
+  destruct (beqb c x5b) eqn:Eob.
   { cbv zeta in H.
     match type of H with bind ?r _ = _ => destruct r as [[[s2 n]|]|?|] eqn:Er end; cbn [bind] in H; try discriminate.
     - exfalso. match type of H with bind ?r _ = _ => destruct r as [n|?|] eqn:Em; cbn [bind] in H end.
@@ -146,13 +214,13 @@ Proof.
       + discriminate H.
     - inversion H; subst. match type of Er with (if ?b then _ else _) = _ => destruct b end; [|discriminate].
       eapply handle_wikilink_sites; [| |exact Er]; cbn [coloff pos set_pos]; lia. }
-  destruct (beqb c x5d).
+  destruct (beqb c x5d) eqn:Ecb.
   { destruct (handle_close_bracket _ _ _ _ _ _) as [[s2 n]|?|] eqn:Eh; cbn [bind] in H; try discriminate.
     inversion H; subst. eapply hcb_sites; [| | |exact Eh].
     - exact C1.
     - exact R1.
     - exact Hd. }
-  destruct (beqb c x21).
+  destruct (beqb c x21) eqn:Ebang.
   { cbv zeta in H. exfalso. destruct (peek_eq inp (S (pos s1)) x5b && negb (peek_eq inp (S (S (pos s1))) x5e)).
     - match type of H with bind ?r _ = _ => destruct r as [n|?|] eqn:Em; cbn [bind] in H end.
       + destruct (push_item _ n). discriminate H.
@@ -164,6 +232,17 @@ Proof.
   destruct (beqb c x24) eqn:Edol.
   { apply append_panic in H. eapply handle_dollars_sites; eassumption. }
   (* default arm *)
+  assert (stops_at (io_fn o) (within s1) c = false) as Hstop.
+  { rewrite io_fn_tables. cbv zeta.
+    match goal with |- stops_at (io_fn ?o') ?w c = false =>
+      pose proof (stop_handled_bool (io_autolink o) (io_strikethrough o) (io_subscript o) (io_superscript o)
+                                    (io_underline o) (io_spoiler o) (io_smart o) w c) as Hh end.
+    cbv zeta in Hh.
+    destruct (stops_at _ _ c); [|reflexivity].
+    simpl in Hh. unfold handled in Hh. cbn [io_autolink io_strikethrough io_subscript io_superscript io_spoiler] in Hh.
+    rewrite E00, Enl, Ebt, Ebs, Eamp, Elt, Ecolon, Ehy, Epe, Eob, Ecb, Ebang, Edol in Hh.
+    rewrite Ew, Edel in Hh. discriminate. }
+  pose proof (find_special_gt (io_fn o) (within s1) inp (pos s1) c Ec Hstop) as Hgt.
   cbv zeta in H.
   destruct (fsc_bounds (io_fn o) (within s1) inp (pos s1) ltac:(lia)) as [B1 B2].
   set (endpos := N.to_nat (find_special_char (io_fn o) (within s1) inp (pos s1))) in *.
@@ -176,6 +255,21 @@ Proof.
   match type of H with bind ?r _ = _ => destruct r as [[c1 e1]|?|] eqn:E3; cbn [bind] in H; [| |discriminate H] end.
   2:{ exfalso. destruct (peek_is inp endpos is_line_end_char); [|discriminate E3].
       rewrite rtrim_ok in E3. cbn [bind] in E3. discriminate E3. }
+  assert (1 <= e1) as He1pos.
+  { destruct (peek_is inp endpos is_line_end_char) eqn:Epk.
+    - rewrite rtrim_ok in E3. cbn [bind fst snd] in E3. injection E3 as _ Ee1.
+      pose proof (count_while_le sl_isspace (rev contents)) as K. rewrite rev_length in K.
+      destruct (Nat.eq_dec e1 0) as [Z|NZ]; [|lia]. exfalso.
+      apply peek_is_some in Epk. destruct Epk as [c' [Hc' Hl']].
+      assert (pos s1 = 0) as Hp0 by lia.
+      assert (contents = firstn endpos inp) as Hcont.
+      { unfold contents. rewrite Hp0. cbn [skipn]. rewrite Nat.sub_0_r. reflexivity. }
+      assert (first_line_not_blank inp = false) as Hf.
+      { eapply (blank_first_line o (within s1) inp endpos c'); try eassumption.
+        - unfold endpos. rewrite Hp0. reflexivity.
+        - rewrite <- Hcont. lia. }
+      rewrite Hflb in Hf. discriminate Hf.
+    - inversion E3; subst. fold endpos in Hgt. lia. }
   assert (pos s1 <= e1 /\ List.length c1 <= List.length contents) as [He1 Hc1].
   { destruct (peek_is inp endpos is_line_end_char).
     - rewrite rtrim_ok in E3. cbn [bind fst snd] in E3. inversion E3; subst.
@@ -190,7 +284,7 @@ Proof.
   { destruct (last_child_is_linebreak (set_pos s1 endpos)).
     - rewrite ltrim_ok in E4. cbn [bind fst snd] in E4. inversion E4; subst. lia.
     - inversion E4; subst. lia. }
-  unfold usub in H. destruct (Nat.ltb e1 1) eqn:E5; cbn [bind] in H; [inversion H; reflexivity|].
+  unfold usub in H. destruct (Nat.ltb e1 1) eqn:E5; cbn [bind] in H; [apply Nat.ltb_lt in E5; lia|].
   apply Nat.ltb_ge in E5. apply append_panic in H. exfalso.
   match type of H with bind ?r _ = _ => destruct r as [n|?|] eqn:Em; cbn [bind] in H; try discriminate H end.
   eapply text_mk_sites; [| |exact Em]; cbn [coloff set_pos]; lia.
@@ -332,10 +426,10 @@ End Walk.
 
 (* every Panic of the inline phase of a block is at one of the remaining sites *)
 Theorem inlines_total_partial_sites_lemma memo o u inp lo sl refmap maxref rs0 site :
-  rtrim_slice inp = inp -> line_endings inp < List.length lo -> (rs0 <= maxref)%N ->
+  rtrim_slice inp = inp -> first_line_not_blank inp = true -> line_endings inp < List.length lo -> (rs0 <= maxref)%N ->
   parse_inlines memo o u inp lo sl refmap maxref rs0 = Panic site -> In site remaining.
 Proof.
-  intros Hrt Hlo Hr H. pose proof (inlines_sites_section memo o u inp lo sl refmap maxref Hrt rs0 site Hlo Hr H) as A.
+  intros Hrt Hfl Hlo Hr H. pose proof (inlines_sites_section memo o u inp lo sl refmap maxref Hrt Hfl rs0 site Hlo Hr H) as A.
   unfold allowed in A. apply existsb_exists in A. destruct A as [x [Hin Heq]].
   apply String.eqb_eq in Heq. subst x. exact Hin.
 Qed.
@@ -347,6 +441,7 @@ Definition excluded_sites : list string :=
   [ "inlines.rs:parse_inline:line-start.line";
     "inlines.rs:parse_inline:line_offsets[adjusted_line]";
     "inlines.rs:parse_inline:input[pos..endpos]";
+    "inlines.rs:parse_inline:endpos-1";
     "inlines.rs:handle_newline:input[pos]";
     "inlines.rs:handle_newline:input[pos] after CR";
     "inlines.rs:handle_newline:pos-1";
@@ -378,6 +473,7 @@ Definition excluded_sites : list string :=
     "inlines.rs:handle_dollars:pos-1";
     "inlines.rs:adjust_node_newlines:pos-matchlen-extra";
     "inlines.rs:adjust_node_newlines:pos-extra";
+    "inlines.rs:adjust_node_newlines:slice";
     "inlines.rs:adjust_node_newlines:line-start.line";
     "inlines.rs:adjust_node_newlines:parent_line_offsets[adjusted_line]";
     "parser/inlines.rs:make_inline:try_from.unwrap";
@@ -398,11 +494,11 @@ Lemma excluded_disjoint : forallb (fun x => negb (existsb (String.eqb x) remaini
 Proof. vm_compute. reflexivity. Qed.
 
 Theorem inlines_total_partial_unreachable_lemma memo o u inp lo sl refmap maxref rs0 site :
-  rtrim_slice inp = inp -> line_endings inp < List.length lo -> (rs0 <= maxref)%N ->
+  rtrim_slice inp = inp -> first_line_not_blank inp = true -> line_endings inp < List.length lo -> (rs0 <= maxref)%N ->
   In site excluded_sites -> parse_inlines memo o u inp lo sl refmap maxref rs0 <> Panic site.
 Proof.
-  intros Hrt Hlo Hr Hin H.
-  apply (inlines_total_partial_sites_lemma memo o u inp lo sl refmap maxref rs0 site Hrt Hlo Hr) in H.
+  intros Hrt Hfl Hlo Hr Hin H.
+  apply (inlines_total_partial_sites_lemma memo o u inp lo sl refmap maxref rs0 site Hrt Hfl Hlo Hr) in H.
   pose proof excluded_disjoint as D. rewrite forallb_forall in D. specialize (D site Hin).
   apply negb_true_iff in D.
   assert (existsb (String.eqb site) remaining = true) as E.
